@@ -133,6 +133,18 @@ Next == /\ l <= Len(Rec)
         /\ l' = l + 1
 Spec == Init /\ [][Next]_vars
 
+(* Diagnostics (TraceCoinDiag.cfg, run by the check on the history of a rejected event only): what the
+   machine gives for the next event — `found` is FALSE when a hash the machine needs was not among the
+   calls the coin made. *)
+Expect(e) ==
+  IF e.e = "new"
+    THEN LET r == C!New([hf |-> e.hf, c |-> 0], e.seed) IN [found |-> r.ok, res |-> r.res, counter |-> r.st.c]
+  ELSE IF e.e \in {"reseed", "draw", "ints", "lz"}
+    THEN LET r == C!Step([hf |-> e.hf, c |-> st.c], f, st, OpOf(e)) IN
+         [found |-> r.ok, res |-> r.res, counter |-> r.st.c]
+  ELSE [found |-> TRUE, res |-> [t |-> "-", v |-> <<>>], counter |-> st.c]
+Explain == l <= Len(Rec) => PrintT(<<"EXPECT", ToJson([l |-> l, x |-> Expect(Rec[l])])>>)
+
 Progress == TLCSet(7, l)
 Accepted == IF TLCGet(7) = Len(Rec) + 1 THEN TRUE
             ELSE Print(<<"REJECTED_AT", TLCGet(7)>>, FALSE)
